@@ -515,6 +515,7 @@ func c06Exec(x *explore.Exec, sc c06Scenario) (bool, string, string, string) {
 			return false, "C06/state-corrupted-after-join", fmt.Sprintf("scenario %s schedule %v: after all calls returned Detect(in%d) = %s, sequential answer %s", desc, x.Choices, i, post[i], want), ""
 		}
 	}
+	sort.Strings(obs)
 	return true, "", "", strings.Join(obs, ";")
 }
 
